@@ -757,3 +757,77 @@ Section Norm.
     - cbn [fx_norm d_id1]. unfold generate_id1. destruct (d_id1 d); discriminate.
   Qed.
 End Norm.
+
+(* (2) For every well-formed document with a trimmed trailer, what the reader gets back from generation 1 is a normal
+   form of the writer: well formed, numbered 1..n in first-encounter order with every object reachable, no null-valued
+   dictionary entry, streams carrying the printed /Length, trailer trimmed with /Size n+1, static second ID. *)
+Lemma gen1_normal_form_lemma : forall d, wf_doc d -> fx_trimmed d ->
+  N.of_nat (length (fx_write d)) < 10 ^ 10 ->
+  exists d1, fx_read (fx_write d) = Some d1 /\ d1 = fx_norm d /\ fx_normal d1.
+Proof.
+  intros d W Ht Hlt. exists (fx_norm d). split; [exact (fx_read_write_lemma d W Hlt)|]. split; [reflexivity|].
+  exact (fxs_normal1 d W Ht).
+Qed.
+
+(* what the normal form means in the words of the property: nothing unreachable, nothing dangling, and the queue
+   renumbers by the identity *)
+Lemma normal_form_facts_lemma : forall d, fx_normal d ->
+  (forall k i, In (k, i) (d_objects d) -> reach (graph_of d) (roots_of d) k)
+  /\ (forall x y, In y (children (graph_of d) x) -> exists i, find_obj (d_objects d) y = Some i)
+  /\ (forall k i, In (k, i) (d_objects d) -> renumber (graph_of d) (roots_of d) k = Some k).
+Proof.
+  intros d NF. destruct NF as [W Hkeys Hwr _ _ _ _ _ _ _].
+  pose proof (wfd_closed d W) as Hc. destruct (queue_complete_lemma _ _ Hc) as [_ Hq].
+  assert (Hk : forall k i, In (k, i) (d_objects d) -> In k (written (graph_of d) (roots_of d))).
+  { intros k i Hin. rewrite Hwr, <- Hkeys. apply in_map_iff. exists (k, i). split; [reflexivity | exact Hin]. }
+  split; [|split].
+  - intros k i Hin. apply Hq. exact (Hk k i Hin).
+  - intros x y Hy. destruct Hc as [Hnd [_ Hcl]]. pose proof (children_in _ _ _ Hy) as Hx.
+    pose proof (Hcl _ _ _ Hx Hy) as Hin. unfold graph_of in Hin. rewrite map_map in Hin. cbn [fst] in Hin.
+    apply in_map_iff in Hin. destruct Hin as [[k i] [Hk' Hin]]. cbn [fst] in Hk'. subst k. exists i.
+    apply fx_find_obj_nodup; [|exact Hin]. unfold graph_of in Hnd. rewrite map_map in Hnd. exact Hnd.
+  - intros k i Hin. pose proof (fx_ren_identity d _ Hc Hwr k (Hk k i Hin)) as H.
+    pose proof (written_ren_pos d k Hc (Hk k i Hin)) as Hp. unfold fx_ren in H. unfold doc_ren in Hp.
+    destruct (renumber (graph_of d) (roots_of d) k); [rewrite H; reflexivity | lia].
+Qed.
+
+(* (4) THE FIXPOINT, plain mode (--object-streams=disable --compress-streams=n --decode-level=none), static id:
+   for every well-formed document d with a trimmed trailer, with g1 := write d, g2 := write (read g1),
+   g3 := write (read g2): the strict reader accepts g1 and g2, and g3 = g2 byte for byte. (The two size hypotheses are
+   the cross-reference table's 10-digit offset limit, under which write_read_strict is stated.) *)
+Lemma gen2_eq_gen3_plain_lemma : forall d, wf_doc d -> fx_trimmed d ->
+  N.of_nat (length (fx_write d)) < 10 ^ 10 ->
+  N.of_nat (length (fx_write (fx_norm d))) < 10 ^ 10 ->
+  exists g2, fx_gens d = (fx_write d, Some g2, Some g2).
+Proof.
+  intros d W Ht H1 H2. exists (fx_write (fx_norm d)). unfold fx_gens.
+  assert (Hg2 : fx_regen (fx_write d) = Some (fx_write (fx_norm d))).
+  { unfold fx_regen. rewrite (fx_read_write_lemma d W H1). reflexivity. }
+  rewrite Hg2. rewrite (normal_form_is_fixpoint_lemma (fx_norm d) (fxs_normal1 d W Ht) H2). reflexivity.
+Qed.
+
+(* every later generation is the same too *)
+Lemma later_generations_equal_lemma : forall d, wf_doc d -> fx_trimmed d ->
+  N.of_nat (length (fx_write d)) < 10 ^ 10 ->
+  N.of_nat (length (fx_write (fx_norm d))) < 10 ^ 10 ->
+  forall k, Nat.iter k (fun o => match o with Some b => fx_regen b | None => None end) (fx_regen (fx_write d))
+            = Some (fx_write (fx_norm d)).
+Proof.
+  intros d W Ht H1 H2.
+  assert (Hg2 : fx_regen (fx_write d) = Some (fx_write (fx_norm d))).
+  { unfold fx_regen. rewrite (fx_read_write_lemma d W H1). reflexivity. }
+  induction k as [|k IH]; [exact Hg2|].
+  set (F := fun o : option (list N) => match o with Some b => fx_regen b | None => None end) in *.
+  change (Nat.iter (S k) F (fx_regen (fx_write d))) with (F (Nat.iter k F (fx_regen (fx_write d)))). rewrite IH. unfold F.
+  exact (normal_form_is_fixpoint_lemma (fx_norm d) (fxs_normal1 d W Ht) H2).
+Qed.
+
+(* generation 1 = generation 2 needs the static-id mode on the first document too: a document whose second /ID string is
+   not the static one (or whose first one is empty) is written with THAT pair in generation 1 and with the static pair
+   from generation 2 on. Witness: C01's example document (d_id2 = []). *)
+Lemma gen1_eq_gen2_without_static_id_refuted_lemma : exists d, wf_doc d /\ fx_trimmed d /\
+  fx_regen (fx_write d) <> Some (fx_write d).
+Proof.
+  exists ex_doc. split; [exact wf_doc_example|]. split; [repeat constructor|].
+  intros H. vm_compute in H. discriminate H.
+Qed.
